@@ -206,6 +206,9 @@ class Attribute(_BaseAttribute):
     def __getitem__(self, key):
         if key in self._data:
             return self._data[key]
+        if self.elemsize>1:
+            # never hand out the default object itself: an in-place update of the returned vector would change what every unset key reads
+            return Vec(np.array(self.default_value))
         return self.default_value
 
     def __setitem__(self, key, value):
